@@ -42,12 +42,13 @@ def check(ctx):
         args = [k(src(util.strip_cast(x))) for x in c.args]
         if args != ['%s.data' % st, 'global_derivative_buffer.data', t]:
             problems.append('derivative evaluated with %s' % args)
-        recv = k(src(util.strip_cast(c.func.value)))
+        defs = util.single_defs(f)
+        recv = k(src(util.resolve_alias(c.func.value, defs)))
         c2 = util.calls_in(f, suffix='apply_repeated_rules')[0]
         args2 = [k(src(util.strip_cast(x))) for x in c2.args]
         if args2[:2] != ['%s.data' % st, t]:
             problems.append('rules applied to %s' % args2)
-        if recv != 'global_simulator' or k(src(util.strip_cast(c2.func.value))) != 'global_simulator':
+        if recv != 'global_simulator' or k(src(util.resolve_alias(c2.func.value, defs))) != 'global_simulator':
             problems.append('not evaluated on the process-wide simulator')
     rets = [s for s in f.body if isinstance(s, ast.Return)]
     if len(rets) != 1 or src(rets[0].value) != 'global_derivative_buffer':
@@ -95,20 +96,21 @@ def check(ctx):
         if not (isinstance(stt, ast.Assign) and k(src(stt.targets[0])) in ('(results,full_output)', 'results,full_output')):
             problems.append('the integrator output is stored as %s' % k(src(stt.targets[0]) if isinstance(stt, ast.Assign) else ''))
     rets = [n for n in ast.walk(f) if isinstance(n, ast.Return)]
+    n_good = 0
     for r in rets:
         v = k(src(r.value))
-        if v not in ('SSAResult(%s,results)' % tp, 'SSAResult(%s,results*np.nan)' % tp, 'SSAResult(%s,np.nan*results)' % tp):
+        g = util.guards_of(r, f)
+        if v == 'SSAResult(%s,results)' % tp:
+            n_good += 1
+            if 'success' not in g:
+                problems.append('the plain result rows are returned without success being established (guards %s)' % sorted(g))
+        elif v in ('SSAResult(%s,results*np.nan)' % tp, 'SSAResult(%s,np.nan*results)' % tp):
+            if 'not success' not in g:
+                problems.append('NaN rows are returned under guards %s' % sorted(g))
+        else:
             problems.append('returns %s' % v)
-    succ = [n for n in ast.walk(f) if isinstance(n, ast.If) and src(n.test) == 'success']
-    if succ:
-        good = [k(src(r.value)) for r in ast.walk(ast.Module(body=succ[-1].body, type_ignores=[])) if isinstance(r, ast.Return)]
-        badr = [k(src(r.value)) for r in ast.walk(ast.Module(body=succ[-1].orelse, type_ignores=[])) if isinstance(r, ast.Return)]
-        if good != ['SSAResult(%s,results)' % tp]:
-            problems.append('a successful integration returns %s' % good)
-        if badr and not all('nan' in b for b in badr):
-            problems.append('a failed integration returns %s (partially valid rows)' % badr)
-    else:
-        problems.append('success is not tested before returning')
+    if n_good != 1:
+        problems.append('%d returns of the integrated rows' % n_good)
     sdef = [n for n in ast.walk(f) if isinstance(n, ast.Assign) and src(n.targets[0]) == 'success' and isinstance(n.value, ast.Compare)]
     if len(sdef) != 1 or k(src(sdef[0].value)) not in ("full_output['message']=='Integrationsuccessful.'", "'Integrationsuccessful.'==full_output['message']"):
         problems.append("success is not exactly the integrator's own success message (%s)" % [src(x.value) for x in sdef])
